@@ -80,7 +80,7 @@ def worker(ctx):
         os.makedirs(src)
         wit = {"case": case_id, "shard": ctx.shard}
         try:
-            paths = write_schema(root, src, rng=rng, semi=0.3, comments=0.3, blanks=0.2, path_style="random")
+            paths = write_schema(root, src, rng=rng, semi=0.3, comments=0.3, blanks=0.2, path_style="random", compact=0.2)
             wit["schema"] = pycommon.describe(root, paths)
             main = paths[root.basename]
             trad = not is_extensible_anywhere(root)
